@@ -274,7 +274,22 @@ func msgClass(msg string) string {
 
 // checkCompile runs oracles B/C on one grammar. outcome is the class of what happened.
 func checkCompile(decls []decl) (key, what, outcome string) {
-	text := grammarFor(decls)
+	return checkText(grammarFor(decls), decls)
+}
+
+// derivedGrammars puts terminal t next to nonterminals that the compiler derives itself: a template
+// instance (a<B> instantiated as a_B, identifier AB) and a nonterminal extracted from a mid-rule
+// action (a$1, identifier A_1). Their identifiers must be checked against the terminals' as well.
+func derivedGrammars(t string) []string {
+	head := "language l(go);\n:: lexer\nzz: /z/\n" + t + ": /x/\nc: /y/\n:: parser\n"
+	return []string{
+		head + "%flag B;\ninput: a<+B> " + t + ";\na<B>: [B] c | [!B] zz;\n",
+		head + "input: a " + t + ";\na: zz { act() } c;\n",
+		head + "%flag B;\ninput: a<+B> " + t + " a<~B>;\na<B>: [B] c { act() } zz | [!B] zz;\n",
+	}
+}
+
+func checkText(text string, decls []decl) (key, what, outcome string) {
 	var g *grammar.Grammar
 	var err error
 	if perr := core.Guard(func() { g, err = compiler.Compile(context.Background(), "c28.tm", text, compiler.Params{}) }); perr != nil {
@@ -340,6 +355,7 @@ type rcase struct {
 	Mode  string    `json:"mode"` // produce | compile
 	Sp    *spelling `json:"spelling,omitempty"`
 	Decls []decl    `json:"decls,omitempty"`
+	Text  string    `json:"text,omitempty"`
 }
 
 type result struct {
@@ -420,6 +436,25 @@ func run(c *core.Ctx) {
 		}
 	}
 	c.Sample(map[string]string{"grammar": grammarFor([]decl{{"term", "'+'"}, {"nonterm", "a-1"}})})
+
+	// --- B2: every admitted unquoted terminal spelling next to compiler-derived nonterminals
+	derived := 0
+	for _, d := range admitted {
+		if d.Kind != "term" || strings.ContainsAny(d.Text, "'\"") {
+			continue
+		}
+		for gi, text := range derivedGrammars(d.Text) {
+			key, msg, outcome := checkText(text, nil)
+			derived++
+			c.Eval(1)
+			c.Outcome("derived:"+outcome, 1)
+			if key != "" {
+				c.Violate(key+":derived-nonterminal", msg, rcase{Mode: "text", Text: text})
+			}
+			_ = gi
+		}
+	}
+	c.Set("derived_nonterminal_grammars", derived)
 
 	// --- C: pairs. Base set: unordered in quick, both orders in thorough. Extended set (thorough):
 	// unordered pairs with at least one member outside the base set.
@@ -531,6 +566,10 @@ func replay(c *core.Ctx, raw json.RawMessage) error {
 		}
 	case "compile":
 		if key, msg, _ := checkCompile(r.Decls); key != "" {
+			return fmt.Errorf("%s: %s", key, msg)
+		}
+	case "text":
+		if key, msg, _ := checkText(r.Text, nil); key != "" {
 			return fmt.Errorf("%s: %s", key, msg)
 		}
 	default:
